@@ -4,7 +4,7 @@ from . import parse, layout, exec as sexec, models, synprint, ast
 from .values import *
 
 VERIF = os.path.dirname(os.path.dirname(os.path.abspath(__file__)))
-CACHE = os.path.join(VERIF, '.cache')
+CACHE = os.environ.get('VERIF_CACHE') or os.path.join(VERIF, '.cache')
 
 
 def dump_mir(repo='/repo'):
